@@ -156,6 +156,7 @@ func (lcm *LCM) DecodeFromBytes(data []byte, df gopacket.DecodeFeedback) error {
 		offset += 2
 	} else {
 		lcm.Fragmented = false
+		lcm.PayloadSize, lcm.FragmentOffset, lcm.FragmentNumber, lcm.TotalFragments = 0, 0, 0, 0
 	}
 
 	if !lcm.Fragmented || (lcm.Fragmented && lcm.FragmentNumber == 0) {
@@ -171,11 +172,15 @@ func (lcm *LCM) DecodeFromBytes(data []byte, df gopacket.DecodeFeedback) error {
 		}
 
 		lcm.ChannelName = string(buffer)
+	} else {
+		lcm.ChannelName = ""
 	}
 
 	if len(data)-offset >= 8 {
 		lcm.fingerprint = LCMFingerprint(
 			binary.BigEndian.Uint64(data[offset : offset+8]))
+	} else {
+		lcm.fingerprint = 0
 	}
 
 	lcm.contents = data[:offset]
